@@ -1,0 +1,13 @@
+//go:build verif
+
+package call
+
+// VerifLoopCountCall reports how many expansions the last generation used.
+func VerifLoopCountCall() int {
+	return loopCount
+}
+
+// VerifBudgetCall reports the number of expansions one generation may use.
+func VerifBudgetCall() int {
+	return maxLoopCount + 1
+}
